@@ -19,6 +19,7 @@ from sa.symex import Interp, flat_guards
 from sa.rowids import Analyzer, Facts, U32, is_call, method, recv
 
 RULES = {
+    "R-C07-g": "optional category parameters (a requested common value, a column) are tested with `is None`, never by truth value: shift_common(0) that silently keeps the old common leaves column_stack with entries listed under the common value (imported from C06 rule m)",
     "R-C07-a": "every stored row-id array is strictly increasing (sorted and unique)",
     "R-C07-b": "no empty array is stored (dominating non-emptiness guard, inherited entry, or set_if)",
     "R-C07-c": "nothing is stored under the (final) common value of the index being built",
@@ -641,6 +642,16 @@ def main(tier):
     update_order_rule(prog, rep)
     update_clear_cases(prog, rep)
     complement_routine(prog, rep)
+    # R-C07-g: a requested common value is honoured whatever its truth value (column_stack relies on shift_common(v) having
+    # re-encoded every input: an input left at its old common keeps entries under the new one) - decided by C06's rule m
+    import c06
+    sub6 = core.Report("C06", level="other", rules=c06.RULES, tier=tier)
+    c06.rule_m(prog, sub6)
+    k6 = 0
+    for o in sub6.obls:
+        k6 += 1
+        rep.add("R-C07-g", o.where, "[%s] %s" % (o.rule, o.construct), o.status, o.detail, True, o.witness)
+    rep.floor("R-C07-g", 3, k6)
     rep.analysed["roots"] = [f.fq for f in roots]
     rep.analysed["store_sites"] = stats["sites"]
     rep.floor("R-C07-a", 30, stats["sites"])
